@@ -79,6 +79,17 @@ def generate(tier, rng):
                     c.op(e.id, 'reprall', 'exhaustive-%s/multi-hint' % int_ty)
                 if unit_only or int_ty:
                     c.op(e.id, 'discrs', 'as-cast')
+    # a repr written for the GENERATED discriminants enum must not leak into from_repr's parameter type
+    for j, own in enumerate((None,)):
+        lays = reprcorpus.layouts(own, 4)
+        e = reprcorpus.make_enum('c06d%d' % j, 'EnC06d%d' % j, 4, own, 'gapped', lays['gapped'], 'middle', True, ['FromRepr', 'EnumDiscriminants'], ['repr'])
+        e.extra['enum_attrs'] = ['#[strum_discriminants(repr(u8))]']
+        e.extra['shape'] = 'with strum_discriminants(repr(u8)) own=%s' % own
+        e.extra['no_noise'] = True
+        c.add(e)
+        for x in (0, 1, 2, 11, 12, 255, 256, 257, 267, 65535):
+            c.op(e.id, 'repr %d' % x, 'disc-repr-leak')
+        c.op(e.id, 'discrs', 'as-cast')
     return c
 
 
